@@ -51,6 +51,9 @@ type Exchange struct {
 type Decision struct {
 	Fail   bool
 	Status int
+	// AfterEffect: the request takes effect in the registry, but the client is answered
+	// Status (the response got lost / was replaced by a gateway error)
+	AfterEffect bool
 }
 
 // Gate is consulted at the start of every exchange, before any effect.
@@ -207,8 +210,14 @@ func (r *Registry) roundTrip(req *http.Request) (*Exchange, *http.Response, erro
 	r.seq++
 	ex.Seq = r.seq
 	r.mu.Unlock()
+	lost := 0
 	if r.Gate != nil {
-		if dec := r.Gate.Enter(ex); dec.Fail {
+		if dec := r.Gate.Enter(ex); dec.Fail && dec.AfterEffect {
+			lost = dec.Status
+			if lost == 0 {
+				lost = 500
+			}
+		} else if dec.Fail {
 			st := dec.Status
 			if st == 0 {
 				st = 500
@@ -221,6 +230,10 @@ func (r *Registry) roundTrip(req *http.Request) (*Exchange, *http.Response, erro
 	}
 	r.mu.Lock()
 	defer r.mu.Unlock()
+	if lost != 0 && ex.Kind == "manifest" {
+		r.manifest(req, ex)
+		return ex, resp(req, lost, map[string]string{"Content-Type": "application/json"}, errBody("UNKNOWN", "injected failure after effect")), nil
+	}
 	switch ex.Kind {
 	case "manifest":
 		return ex, r.manifest(req, ex), nil
